@@ -49,17 +49,22 @@ SC = lambda j="j": f"isscalar(Rd(candles, {j}, indicator))"
 NB = lambda j="j": f"numb(Rd(candles, {j}, indicator))"
 
 
+NUMERIC = "forall(0, Len(candles), lambda j: isnone(Rd(candles, j, {0})) or isnum(Rd(candles, j, {0})))"
+
+
 def extreme(name, rel):
     return Contract(
         M + name,
         types={"candles": "series", "indicator": "name", "length": "int", "index": "int"},
         lets={"idx": IDX, "lo": f"Max(0, {IDX} - length)"},
-        requires={"scalar-readings": SCALARS.format("indicator")},
+        # numeric readings: `max_reading is not False` would turn a boolean series whose extremum is the
+        # reading False into "no reading" (boolean series are outside this contract)
+        requires={"numeric-readings": NUMERIC.format("indicator")},
         ensures={
             "false-for-invalid-arguments": f"implies(not {VALID} or length < 1, result == False)",
             "none-when-nothing-in-window": f"implies({VALID} and length >= 1 and forall(lo, idx + 1, lambda j: not {SC()}), result is None)",
             "bounds-every-reading-in-window": f"implies({VALID} and length >= 1, forall(lo, idx + 1, lambda j: implies({SC()}, result is not None and isscalar(result) and numb(result) {rel} {NB()})))",
-            "is-one-of-them": f"implies({VALID} and length >= 1 and result is not None, exists(lo, idx + 1, lambda j: {SC()} and numb(result) == {NB()}))",
+            "is-one-of-them": f"implies({VALID} and length >= 1 and result is not None, exists(lo, idx + 1, lambda j: {SC()} and same(result, Rd(candles, j, indicator))))",
         },
         result_type="reading",
         reads=[("candles", "lo", "idx", f"{VALID} and length >= 1")],
